@@ -40,7 +40,7 @@ META = {
     "complete result in any listed location is reused whatever leftovers precede it; C11_readonly_untouched(_history) — "
     "only the cache root is ever written.  C11_shadow_regression: the D8 witness now behaves as the abstract cache; "
     "C11_shadow_old_witness documents that the pinned load_result did not.  Tied to pydra/engine/job.py, result.py, "
-    "submitter.py by replaying generated histories on real directories.",
+    "submitter.py by replaying generated histories on real directories. C11_skeleton (decide over the skeleton of Job.run / run_async regenerated from the source on every run): the cached-result test sits under the job lock, a cached result ends the run before anything is cleared or written, the result is saved also when the body raises, rerun skips the test.",
     "note": "Trusted: Lean kernel; hand-written model CacheHist.lean (workflows of depth 1, node jobs sequential, first "
     "failing node ends the workflow); the file-system observation (directory state, counter files); generator reach.",
     "rule": "case = history of ≤ 8 submissions (+ ≤ 3 plants) and a worker; distinct by canonical JSON; non-trivial = some "
@@ -79,6 +79,7 @@ MODEL_TARGETS = ["PydraModel.JobProto.CacheHist", "PydraModel.DriverUtil"]
 
 CORPUS = core.VERIF / "corpus" / "cachehist" / "histories.jsonl"
 PLANT_KINDS = ["emptydir", "emptydir", "jobonly", "emptyresult"]
+WATCHDOG_S = float(__import__("os").environ.get("VERIF_WATCHDOG_S", "900"))  # per history; generous: the machine may be heavily loaded
 
 
 def gen_history(rng, max_subs: int, worker: str = "debug", torn: bool = False) -> dict:
@@ -114,14 +115,14 @@ def nontrivial(case) -> bool:
 
 
 def run_cases(ctx, cases, with_model=True):
-    ch.private_hash_cache(ctx.scratch)
     impls = []
-    for i, c in enumerate(cases):
-        base = ctx.scratch / f"c11-{ctx.evaluations}-{i}-{len(impls)}-{ctx.rng.randrange(10**9)}"
-        impls.append(ch.run_history(base, c))
-        import shutil
-
-        shutil.rmtree(base, ignore_errors=True)
+    for c, r in zip(cases, ch.ChildRunner("harness.engines.cachehist:child_history", ctx.scratch, WATCHDOG_S).run(cases, "c11")):
+        if "ok" in r:
+            impls.append((r["ok"]["trace"], r["ok"]["untouched"]))
+        elif "harness_error" in r:
+            raise RuntimeError("harness function failed in the child: " + r["harness_error"] + "\n" + r.get("trace", ""))
+        else:  # hang / crash of the implementation: a finding about this history, not an infrastructure problem
+            impls.append(([{"out": "HANG" if "hang" in r else "CRASH", "cells": None, "execs": None}], False))
     ans = ctx.driver("CacheHist", [ch.model_case(c) for c in cases]) if with_model else None
     for k, (c, (tr, untouched)) in enumerate(zip(cases, impls)):
         model = None
@@ -161,9 +162,9 @@ def correspondence(ctx):
     # corpus first: the D8 witness (fixed: must pass) in all plant flavours, the stale-_errored regression, rerun/propagate;
     # then generated histories (one driver call for everything: the Lean interpreter's start-up dominates under load)
     cases = list(corpus)
-    n_debug = ctx.pick(40, 700)
+    n_debug = ctx.pick(40, 500)
     cases += [gen_history(ctx.rng, 8, "debug", torn=(i % 25 == 7)) for i in range(n_debug)]
-    n_cf = ctx.pick(1, 20)
+    n_cf = ctx.pick(1, 15)
     cases += [gen_history(ctx.rng, ctx.pick(3, 5), "cf") for _ in range(n_cf)]
     run_cases(ctx, cases)
     ctx.extra["correspondence_s"] = round(time.time() - t0, 1)
